@@ -93,6 +93,17 @@ PROPS = {
             "detach / strong-handle behaviour of OwningAddr: covered by C05/C15 handle tables (owning is a strong kind)",
         ],
     },
+    "C11": {
+        "modules": ["Hannibal.Props.C11", "Hannibal.Props.C11Current"],
+        "theorems": ["Hannibal.C11_holds", "Hannibal.C11_current"],
+        "cases": {"quick": {"C11": 1500}, "thorough": {"C11": 20000, "C06": 3000}},
+        "assumptions": COMMON_ASSUMPTIONS + [
+            "prompt-schedule clauses (monC11p: needs-less-than-t completes, needs-more is abandoned exactly at t, "
+            "the caller of an abandoned invocation gets an error) are judged on real traces only",
+            "d = t is excluded (select! picks randomly); virtual clock replaces real time",
+            "'state intact afterwards' is covered by the digest clause of C01's monitor on the same traces",
+        ],
+    },
     "C12": {
         "modules": ["Hannibal.Props.C12"],
         "theorems": ["Hannibal.C12_holds", "Hannibal.C12_current", "Hannibal.C12_state",
